@@ -315,6 +315,34 @@ impl World {
 
     /// The invariant: mapped iff an owner is alive; released exactly once with the right extent.
     fn check(&mut self) -> Result<(), (String, String)> {
+        // every owner can still read the region through the library (not only through the raw
+        // pointer): a non-empty access through each live handle
+        {
+            use vm_memory::Bytes;
+            for h in &self.handles {
+                let reads: Vec<(u64, Result<u8, String>)> = match h {
+                    Handle::Region(r, _) => vec![(r.start_addr().0, r.read_obj::<u8>(vm_memory::MemoryRegionAddress(0)).map_err(|e| format!("{:?}", e)))],
+                    Handle::Map(m) => m.iter().map(|r| (r.start_addr().0, m.read_obj::<u8>(r.start_addr()).map_err(|e| format!("{:?}", e)))).collect(),
+                    Handle::Atomic(a) => {
+                        let m = a.memory();
+                        m.iter().map(|r| (r.start_addr().0, m.read_obj::<u8>(r.start_addr()).map_err(|e| format!("{:?}", e)))).collect()
+                    }
+                    Handle::Snap(m) => m.iter().map(|r| (r.start_addr().0, m.read_obj::<u8>(r.start_addr()).map_err(|e| format!("{:?}", e)))).collect(),
+                };
+                for (start, r) in reads {
+                    let slot = slots_of_start(start);
+                    let inst = &self.insts[slot];
+                    match r {
+                        Ok(t) => {
+                            if t != inst.tag && inst.kind != Kind::XenForeign {
+                                return Err((format!("{:?}/read-through-owner-wrong", inst.kind), format!("slot {} read {:#x} through a live owner, expected {:#x}", slot, t, inst.tag)));
+                            }
+                        }
+                        Err(e) => return Err((format!("{:?}/read-through-owner-failed", inst.kind), format!("slot {}: {}", slot, e))),
+                    }
+                }
+            }
+        }
         self.sync_log();
         let mut alive: HashSet<usize> = HashSet::new();
         for h in &self.handles {
